@@ -114,6 +114,8 @@ class Check:
         if bd is None:
             if 'Traceback (most recent call last)' in err:
                 return R.violation('sut-exception', 'meson setup crashed on a generated project: ' + err[-2000:], 'sut-exception:setup')
+            if not sc.get('corpus'):
+                return R.harness_error('a generated project does not configure: ' + err[-1500:])
             add(probes, 'project-does-not-configure')
             return R.ok(nontrivial=False, probes=probes, summary={'skipped': 'does not configure', 'why': err[-600:]})
         try:
